@@ -218,6 +218,19 @@ func run(c Case) (f *failure, nontrivial bool) {
 	if f := resolve("after the displaced sessions were torn down"); f != nil {
 		return f, nontrivial
 	}
+	// global: every listed subscription belongs to a listed session (the displaced sessions'
+	// subscriptions went away with them)
+	for _, n := range cl.Nodes {
+		listed := map[string]bool{}
+		for _, m := range n.State.SessionMetadatas().All() {
+			listed[m.SessionID] = true
+		}
+		for _, sub := range n.State.Subscriptions().All() {
+			if !listed[sub.SessionID] {
+				return &failure{fmt.Sprintf("node %s still lists subscription %q of session %s, which is not a listed session (a displaced session left its subscriptions behind)", n.Name, sub.Pattern, sub.SessionID), false}, nontrivial
+			}
+		}
+	}
 	// (d) the newest session is intact and served; nothing reaches the old ones any more
 	if st := newest.k.Conn.State(); st.BrokerClosed && !newest.over {
 		return &failure{"the newest session's connection was closed", false}, nontrivial
